@@ -1,15 +1,23 @@
 #!/bin/bash
 # usage: tools/mutest.sh <seeded-dir> <prop> [<prop>...]
-# Applies the seeded change to /repo, runs the given quick checks, and always reverts /repo.
+# Tries a seeded change WITHOUT touching /repo or /verif: a scratch worktree of /repo HEAD gets
+# the patch, a copy of the framework's working tree is run against it via VERIF_REPO.
+# (The registered checks themselves always run against /repo; to use them on a seeded change the
+#  documented way is: git -C /repo apply <patch>; ./run.sh <id>; git -C /repo checkout -- . )
 set -u
 d=$(readlink -f "$1"); shift
-cd /repo || exit 2
-if [ -n "$(git status --porcelain --untracked-files=no)" ]; then echo "/repo has local modifications; refusing"; exit 2; fi
-git apply "$d/patch.diff" || git apply -3 "$d/patch.diff" || { echo "patch does not apply"; git checkout -- .; exit 2; }
-trap 'git -C /repo checkout -- . ' EXIT
-cd /verif
+name=$(basename "$d")
+root=/tmp/mt/$name.$$
+mkdir -p "$root"
+git -C /repo worktree add -q --detach "$root/repo" HEAD || exit 2
+cleanup() { git -C /repo worktree remove --force "$root/repo" >/dev/null 2>&1; rm -rf "$root"; }
+trap cleanup EXIT
+( cd "$root/repo" && { git apply "$d/patch.diff" 2>/dev/null || git apply -3 "$d/patch.diff" >/dev/null 2>&1; } ) || { echo "== $name: patch does not apply to /repo HEAD"; exit 2; }
+if grep -q '^<<<<<<<' -r "$root/repo" --include=*.go --include=*.s 2>/dev/null; then echo "== $name: patch conflicts with /repo HEAD"; exit 2; fi
+rsync -a --exclude .git --exclude .bin --exclude .work --exclude evidence --exclude replays "${MUTEST_VERIF_SRC:-/verif}/" "$root/verif/"
+mkdir -p "$root/verif/evidence"
 for p in "$@"; do
-  out=$(VERIF_KEEP_EVIDENCE=1 ./run.sh $p ${TIER:-quick} 2>&1); rc=$?
-  echo "== $(basename $d) vs $p: exit=$rc"
-  echo "$out" | grep -E "VIOLATION|KNOWN-FINDING|BROKEN|violation " | head -${LINES_MAX:-6}
+  out=$(cd "$root/verif" && VERIF_REPO="$root/repo" ./run.sh $p ${TIER:-quick} 2>&1); rc=$?
+  echo "== $name vs $p: exit=$rc"
+  echo "$out" | grep -E "VIOLATION|KNOWN-FINDING|BROKEN|violation " | cut -c1-260 | head -${LINES_MAX:-4}
 done
